@@ -12,6 +12,7 @@ explicit heap arrays, one array per field.
 from __future__ import annotations
 
 import ast
+import os
 import re
 
 from . import smt
@@ -427,7 +428,10 @@ class Ctx:
             # a conjunction is proved conjunct by conjunct (earlier conjuncts become hypotheses of later ones)
             hyps = list(pc)
             for k, g in enumerate(goal.conj):
-                self.oblige(f"{label} [conjunct {k + 1}/{len(goal.conj)}]", kind, hyps, g, where)
+                if g.conj != "redundant":
+                    # (a conjunct marked redundant restates the one before it over another index; it follows from it, so
+                    # it is not a goal of its own, only a hypothesis for what comes after)
+                    self.oblige(f"{label} [conjunct {k + 1}/{len(goal.conj)}]", kind, hyps, g, where)
                 hyps = hyps + [g]
             return
         self.obligations.append(Obligation(label, kind, pc, goal, where))
@@ -436,6 +440,11 @@ class Ctx:
 # ==========================================================================================
 # equality / truthiness on views
 # ==========================================================================================
+def redundant(t):
+    """Mark a formula that is a logical consequence of the conjunct stated just before it (same equality, other index)."""
+    return T(t.s, t.sort, conj="redundant")
+
+
 def veq(ctx, a, b, st=None):
     if isinstance(a, VNone) and isinstance(b, VNone):
         return TRUE
@@ -474,6 +483,16 @@ def veq(ctx, a, b, st=None):
                 finally:
                     ctx.bound.pop()
                 out.append(ForAll([j], Implies(And(Le(Int(0), j), Lt(j, sub.n)), body)))
+                if not (re.fullmatch(r"\d+", off.s) and int(off.s) == 0) and os.environ.get("PYVC_NO_REINDEX") is None:
+                    # the same, indexed by the position in the whole list (an element term a[u] then triggers it;
+                    # the offset form a[off + j] cannot be matched against a[u])
+                    u = ctx.bvar("u", "Int")
+                    ctx.bound.append(u)
+                    try:
+                        body_u = veq(ctx, a.at(u), sub.at(Sub(u, off)), st)
+                    finally:
+                        ctx.bound.pop()
+                    out.append(redundant(ForAll([u], Implies(And(Le(off, u), Lt(u, Add(off, sub.n))), body_u))))
             return And(*out)
         i = ctx.bvar("i", "Int")
         ctx.bound.append(i)
@@ -492,7 +511,7 @@ def veq(ctx, a, b, st=None):
                     body_u = veq(ctx, y_.at(Sub(u, lo_)), base_.at(u), st)
                 finally:
                     ctx.bound.pop()
-                extra.append(ForAll([u], Implies(And(Le(lo_, u), Lt(u, base_.n)), body_u)))
+                extra.append(redundant(ForAll([u], Implies(And(Le(lo_, u), Lt(u, base_.n)), body_u))))
         return And(Eq(a.n, b.n), ForAll([i], Implies(And(Le(Int(0), i), Lt(i, a.n)), body)), *extra)
     if isinstance(a, VSet) and isinstance(b, VSet):
         if a.parts is not None and b.parts is not None:
@@ -1298,7 +1317,8 @@ class Engine:
                 g_ = And(guard, *conds)
                 if isinstance(inner.conj, list) and len(inner.conj) > 1:
                     # forall x. (A and B)  ==  (forall x. A) and (forall x. B): smaller goals and hypotheses
-                    return And(*[ForAll(vs, Implies(g_, cj)) for cj in inner.conj])
+                    return And(*[(redundant(ForAll(vs, Implies(g_, cj))) if cj.conj == "redundant" else ForAll(vs, Implies(g_, cj)))
+                                 for cj in inner.conj])
                 return ForAll(vs, Implies(g_, inner))
             return Exists(vs, And(guard, *conds, inner))
 
